@@ -403,8 +403,11 @@ class ServiceClass:
         if not self.assoc.is_established:
             return
 
-        # Send final success response - make sure the identifier isn't present
+        # Send final success response - make sure the identifier and any status
+        #   elements from an earlier result aren't present
         rsp.Identifier = None
+        rsp.ErrorComment = None
+        rsp.OffendingElement = None
         rsp.Status = 0x0000
         LOGGER.info(f"Find SCP Response {ii + 2}: 0x0000 (Success)")
         self.dimse.send_msg(rsp, cx_id)
@@ -2011,6 +2014,9 @@ class QueryRetrieveServiceClass(ServiceClass):
             return
 
         # If not already done, send the final 'Success' or 'Warning' response
+        #   (without any status elements from an earlier result)
+        rsp.ErrorComment = None
+        rsp.OffendingElement = None
         if not store_results[1] and not store_results[2]:
             # Success response - no failures or warnings
             LOGGER.info(f"Get SCP Response {ii + 2}: 0x0000 (Success)")
@@ -2422,6 +2428,9 @@ class QueryRetrieveServiceClass(ServiceClass):
             return
 
         # If not already done, send the final 'Success' or 'Warning' response
+        #   (without any status elements from an earlier result)
+        rsp.ErrorComment = None
+        rsp.OffendingElement = None
         if not store_results[1] and not store_results[2]:
             # Success response - no failures or warnings
             LOGGER.info(f"Move SCP Response {ii + 2}: 0x0000 (Success)")
